@@ -169,8 +169,13 @@ impl FraudProof for BadEncodingFraudProof {
             // only the first quadrant holds original data, everything
             // else is in the parity namespace
             let ns = if n < ods_width && usize::from(self.index) < ods_width {
-                // safety: length must be correct
-                Namespace::from_raw(&share[..NS_SIZE]).unwrap()
+                match Namespace::from_raw(&share[..NS_SIZE]) {
+                    Ok(ns) => ns,
+                    // reconstructed original data doesn't even have a valid
+                    // namespace, so it can't match the root
+                    // befp is legit
+                    Err(_) => return Ok(()),
+                }
             } else {
                 Namespace::PARITY_SHARE
             };
